@@ -4,7 +4,7 @@
    F22 below).  Only statements; proofs are in Proofs/IlpP14.v. *)
 From Coq Require Import ZArith Bool List.
 Import ListNotations.
-From Verif Require Import Model.Val Gen.Src_Ilp Model.IlpModel Proofs.IlpP Proofs.IlpP11 Proofs.IlpP10 Proofs.IlpP14 Proofs.IlpP14s.
+From Verif Require Import Model.Val Gen.Src_Ilp Model.IlpModel Proofs.IlpP Proofs.IlpP11 Proofs.IlpP10 Proofs.IlpP14 Proofs.IlpP14s Proofs.IlpPM Proofs.IlpP14c Proofs.IlpP14d.
 Open Scope Z_scope.
 
 (* the objective counts exactly the task graphs all of whose reward tasks are placed (or running) *)
@@ -23,6 +23,28 @@ Print Assumptions C14_ilp_sound.
 Theorem C14_ilp_sound_nonvacuous : exists I a, sat (gen_ilp I) a /\ wf I /\ i_goal I = Goodput /\ goodput I (readback I a) = 1.
 Proof. exact C14_sound_nonvacuous. Qed.
 Print Assumptions C14_ilp_sound_nonvacuous.
+
+(* CONDITIONAL COMPLETENESS (task-by-task mode): every feasible plan of the specification is represented by a
+   satisfying assignment with objective = its goodput, provided
+     taskwise      no two decided tasks depend on one another (the planner's default mode; whole-graph offers with
+                   co-decided parents and children are NOT covered: that part is missing, see C14_ilp.v header),
+     no_running    no decided task is RUNNING                                    (otherwise F11-iii),
+     startable     every enforced deadline is >= max(now + 1, release)           (otherwise F22),
+     no_three_way  two tasks of one worker that both overlap a third task (wherever it runs, or the single instant
+                   of its earliest start if it is unplaced) overlap each other   (otherwise F11-ii).
+   With C14_ilp_sound: on such instances the optimum of the system is the maximum goodput over these plans. *)
+Theorem C14_ilp_complete_taskwise_partial : forall I p,
+  nodup_ids I -> rt_nonneg I -> req_nonneg I -> caps_nonneg I -> i_goal I = Goodput ->
+  no_running I -> taskwise I -> startable I -> feasible_clb I p = true -> no_three_way I p ->
+  exists a, sat (gen_ilp I) a /\ objective (gen_ilp I) a = goodput I p.
+Proof. exact C14_complete_taskwise. Qed.
+Print Assumptions C14_ilp_complete_taskwise_partial.
+Theorem C14_ilp_complete_nonvacuous :
+  nodup_ids ex_two /\ rt_nonneg ex_two /\ req_nonneg ex_two /\ caps_nonneg ex_two /\ i_goal ex_two = Goodput /\
+  no_running ex_two /\ taskwise ex_two /\ startable ex_two /\ feasible_clb ex_two ex_two_plan = true /\
+  no_three_way ex_two ex_two_plan /\ goodput ex_two ex_two_plan = 2.
+Proof. exact C14_complete_nonvacuous. Qed.
+Print Assumptions C14_ilp_complete_nonvacuous.
 
 (* F11-ii, general form: the capacity row of t1 charges t2 and t3 together as soon as each overlaps t1
    somewhere (tau2, tau3 may differ), so three tasks whose demands exceed the capacity can never all be
